@@ -371,20 +371,33 @@ mod pool_sc {
     /// waiter || runner (C02) and waiter || stop (C12).
     /// `stop`: the scheduling thread stops the pool instead of merely running the task.
     /// `unknown`: the waiter waits for a task id nobody submitted (only `stop` can settle it).
-    pub fn exec(prefix: &[usize], em: &mut Emitter, stop: bool, unknown: bool) {
+    /// `rewait`: the waiter first waits with a short timeout and, if that expires, waits again.
+    /// `twostep`: the pool also holds a task that parks for 400 ms; the scheduling thread's first
+    /// stop(50 ms) times out and it stops a second time.
+    pub fn exec(prefix: &[usize], em: &mut Emitter, stop: bool, unknown: bool, rewait: bool, twostep: bool) {
         std::panic::set_hook(Box::new(|_| {}));
         open_coroutine_core::verif::clock_enable(T0);
         init(&["wait:checked", "wait:registered", "wait:woken", "run:popped", "run:inserted", "clean:waiter"], false);
         let pool = Box::leak(Box::new(CoroutinePool::new("ppx-pool".to_string(), 64 * 1024, 0, 2, 0)));
         let tid = pool.submit_task(Some("ppx-task".to_string()), |_| Some(7), None, None).expect("submit");
+        if twostep {
+            let _ = pool.submit_task(Some("ppx-parked".to_string()), |_| {
+                open_coroutine_core::scheduler::SchedulableSuspender::current().expect("suspender").delay(Duration::from_millis(400));
+                Some(8)
+            }, None, None).expect("submit");
+        }
         let wait_for = if unknown { tid ^ 0x5555 } else { tid };
         let sh = Shared(std::ptr::from_mut(pool));
         let out: &'static Mutex<Vec<(String, String)>> = Box::leak(Box::new(Mutex::new(Vec::new())));
         let s1 = sh.clone();
         let _ = spawn(move || {
             let p = unsafe { &*s1.ptr() };
-            let t = now();
-            let r = p.wait_task_result(wait_for, Duration::from_secs(10));
+            let mut t = now();
+            let mut r = if rewait { p.wait_task_result(wait_for, Duration::from_secs(1)) } else { p.wait_task_result(wait_for, Duration::from_secs(10)) };
+            if rewait && r.is_err() {
+                t = now();
+                r = p.wait_task_result(wait_for, Duration::from_secs(10));
+            }
             let slept = now() - t;
             let txt = match r {
                 Ok(Ok(v)) => format!("Ok({v:?})"),
@@ -397,8 +410,9 @@ mod pool_sc {
         let _ = spawn(move || {
             let p = unsafe { &mut *s2.ptr() };
             let txt = if stop {
+                let first = if twostep { Some(p.stop(Duration::from_millis(50)).is_ok()) } else { None };
                 match p.stop(Duration::from_secs(1)) {
-                    Ok(()) => "stopped".to_string(),
+                    Ok(()) => format!("stopped{}", first.map_or(String::new(), |f| format!(" (first stop ok: {f})"))),
                     Err(e) => format!("stop failed: {:?}", e.kind()),
                 }
             } else {
@@ -444,7 +458,7 @@ mod pool_sc {
         // Under the virtual clock a wait that would block "sleeps" its whole timeout at once. That is
         // what a real waiter sees when the other thread is slow - unless everything that could ever wake
         // it had ALREADY happened when the sleep began: then it is a lost wake-up.
-        let pos = |l: &str| order.iter().position(|x| x == l);
+        let pos = |l: &str| if l.starts_with("T0:wait") { order.iter().rposition(|x| x == l) } else { order.iter().position(|x| x == l) };
         let sleep_begins = pos("T0:wait:registered");
         let settled_before_sleep = match (sleep_begins, if stop { pos("T1:end") } else { pos("T1:run:inserted") }) {
             (Some(s), Some(e)) => e < s,
@@ -581,15 +595,17 @@ pub fn run(scen: &str, tier: &str, rep: &mut Report) -> bool {
     let cfg = RunCfg { hang_after: Duration::from_millis(15_000), ..RunCfg::default() };
     let deadline = Instant::now() + Duration::from_secs(if thorough { 1500 } else { 45 });
     let (ex, bound): (Explored, Option<usize>) = match scen {
-        "ppx.wait" | "ppx.stop" | "ppx.stopwait" => {
-            let (stop, unknown, prop) = match scen {
-                "ppx.wait" => (false, false, "C02"),
-                "ppx.stop" => (true, false, "C12"),
-                _ => (true, true, "C12"),
+        "ppx.wait" | "ppx.stop" | "ppx.stopwait" | "ppx.rewait" | "ppx.stop2" => {
+            let (stop, unknown, prop, rewait, twostep) = match scen {
+                "ppx.wait" => (false, false, "C02", false, false),
+                "ppx.rewait" => (false, false, "C02", true, false),
+                "ppx.stop" => (true, false, "C12", false, false),
+                "ppx.stop2" => (true, true, "C12", false, true),
+                _ => (true, true, "C12", false, false),
             };
             let bound = None;
             rep.require(&["schedules_judged", "schedules_with_completion_inside_the_check_register_window"]);
-            (explore(|p, em| pool_sc::exec(p, em, stop, unknown), |p, r, rep| pool_sc::judge(scen, prop, stop, unknown, p, r, rep), rep, &cfg, bound, if thorough { 20_000 } else { 3000 }, deadline), bound)
+            (explore(|p, em| pool_sc::exec(p, em, stop, unknown, rewait, twostep), |p, r, rep| pool_sc::judge(scen, prop, stop, unknown, p, r, rep), rep, &cfg, bound, if thorough { 20_000 } else { 3000 }, deadline), bound)
         }
         #[cfg(feature = "preemptive")]
         "ppx.mon" => {
@@ -611,9 +627,11 @@ pub fn replay(scen: &str, v: &Value, em: &mut Emitter) -> bool {
     let Some(p) = v.get("schedule").and_then(Value::as_array) else { return false };
     let prefix: Vec<usize> = p.iter().filter_map(|x| x.as_u64().map(|x| x as usize)).collect();
     match scen {
-        "ppx.wait" => pool_sc::exec(&prefix, em, false, false),
-        "ppx.stop" => pool_sc::exec(&prefix, em, true, false),
-        "ppx.stopwait" => pool_sc::exec(&prefix, em, true, true),
+        "ppx.wait" => pool_sc::exec(&prefix, em, false, false, false, false),
+        "ppx.rewait" => pool_sc::exec(&prefix, em, false, false, true, false),
+        "ppx.stop" => pool_sc::exec(&prefix, em, true, false, false, false),
+        "ppx.stopwait" => pool_sc::exec(&prefix, em, true, true, false, false),
+        "ppx.stop2" => pool_sc::exec(&prefix, em, true, true, false, true),
         #[cfg(feature = "preemptive")]
         "ppx.mon" => mon_sc::exec(&prefix, em, v.get("suspends").and_then(Value::as_u64).unwrap_or(0) as usize),
         _ => return false,
